@@ -48,3 +48,9 @@ pub fn verif_iter_map_collect<F: Fn(&u64) -> u64>(s: &[u64], f: F) -> (v: Vec<u6
 { s.iter().map(f).collect() }
 pub assume_specification<T: ?Sized, A: core::alloc::Allocator> [<Box<T, A> as core::convert::AsRef<T>>::as_ref](b: &Box<T, A>) -> (s: &T)
     ensures s == &**b;
+// ---- T3 / R7: `(0..n).map(f).collect()` into the boxed word storage
+#[verifier::external_body]
+pub fn verif_range_map_collect<F: Fn(usize) -> u64>(n: usize, f: F) -> (v: Box<[u64]>)
+    requires forall|i: usize| 0 <= i < n ==> f.requires((i,)),
+    ensures v@.len() == n, forall|i: usize| 0 <= i < n ==> f.ensures((i,), #[trigger] v@[i as int]),
+{ (0..n).map(f).collect() }
